@@ -83,3 +83,8 @@ def pySetAdd {α : Type} [BEq α] (s : List α) (x : α) : List α := if s.elem 
 
 /-- `list(itertools.compress(data, selectors))` -/
 def pyCompress {α : Type} (data : List α) (sel : List Bool) : List α := ((data.zip sel).filter (·.2)).map (·.1)
+
+/-- `d.setdefault(k, []).append(v)` on a dict of lists in insertion order -/
+def alistAppendTo {κ ν : Type} [BEq κ] (k : κ) (v : ν) : AList κ (List ν) → AList κ (List ν)
+  | [] => [(k, [v])]
+  | (k', vs) :: rest => if k' == k then (k', vs ++ [v]) :: rest else (k', vs) :: alistAppendTo k v rest
